@@ -241,6 +241,9 @@ def build_harness(version, race=False):
     dst = os.path.join(WORK, "build", "harness-" + version)
     shutil.rmtree(dst, ignore_errors=True)
     shutil.copytree(src, dst)
+    common = os.path.join(VERIF, "harness", "common")
+    for f in os.listdir(common):
+        shutil.copy(os.path.join(common, f), dst)
     repo_mod = REPO if version == "v1" else os.path.join(REPO, "v2")
     gomod = open(os.path.join(dst, "go.mod")).read()
     gomod = re.sub(r"=> /repo(/v2)?", "=> " + repo_mod, gomod)
